@@ -32,6 +32,8 @@ var globPool = []string{
 var globPatterns = []string{
 	"*.x", "**/*.x", "src/*", "src/*.x", "*/*", "*/*.x", "**", "src/**", "**/a.x", "{src,lib}/*.x", "*.{x,y}", "s*/a.x",
 	"**/sub/*", ".*", "*.none", "src/**/*.x", "**/.h.x", "*", "**/*", "src/*/*.x", "?.*", "**/.d/*",
+	// escaped meta characters and character classes (the backslash is an ordinary character of a spok string)
+	`\[d\]*.x`, `q\**.x`, `[a-c]*.x`, `*.[xy]`, `src/[!.]*`,
 }
 
 func patternTaskName(i int) string {
@@ -166,6 +168,68 @@ func execGlob(s *ev.Shard, root string, c GlobCase) *rp.Fail {
 					return &rp.Fail{Sig: "expansion-not-repeatable", Size: size, Msg: fmt.Sprintf("tree %v: pattern %q expanded to %v first and %v on the second expansion of the unchanged tree", c.Paths, pat, first[pat], got[pat])}
 				}
 			}
+		}
+	}
+	// Third leg: what a pattern denotes, observed through skipping. One matched file is edited
+	// and everything is run again unforced: exactly the tasks whose pattern denotes that file
+	// must run again, whatever other tasks (with overlapping patterns) run in the same invocation.
+	entries, err := model.Walk(root)
+	if err != nil {
+		return &rp.Fail{Sig: "harness", Msg: err.Error()}
+	}
+	denotes := map[string][]string{}
+	victim := ""
+	for _, pat := range c.Patterns {
+		denotes[pat] = model.GlobFiles(entries, pat)
+		for _, f := range denotes[pat] {
+			if f != "spokfile" && (victim == "" || f < victim) {
+				victim = f
+			}
+		}
+	}
+	if victim == "" {
+		return nil
+	}
+	runAll := func(force bool) (map[string]bool, *rp.Fail) {
+		tree, err := parser.New(src).Parse()
+		if err != nil {
+			return nil, &rp.Fail{Sig: "harness", Msg: err.Error()}
+		}
+		sf, err := file.New(tree, root, nopLogger{})
+		if err != nil {
+			return nil, &rp.Fail{Sig: "harness", Msg: err.Error()}
+		}
+		rec := &recorder{count: map[string]int{}}
+		if _, err := sf.Run(iostream.Null(), rec, force, tasks...); err != nil {
+			return nil, &rp.Fail{Sig: "expansion-error", Size: size, Msg: fmt.Sprintf("tree %v: run failed: %v", c.Paths, err)}
+		}
+		ran := map[string]bool{}
+		for name, n := range rec.count {
+			ran[name] = n > 0
+		}
+		return ran, nil
+	}
+	if _, f := runAll(false); f != nil { // establishes a recorded success for every task
+		return f
+	}
+	if err := writeFile(root, victim, "edited"); err != nil {
+		return &rp.Fail{Sig: "harness", Msg: err.Error()}
+	}
+	ran, f := runAll(false)
+	if f != nil {
+		return f
+	}
+	for i, pat := range c.Patterns {
+		name := patternTaskName(i)
+		has := false
+		for _, m := range denotes[pat] {
+			has = has || m == victim
+		}
+		switch {
+		case has && !ran[name]:
+			return &rp.Fail{Sig: "glob-omits-matching-file", Size: size, Msg: fmt.Sprintf("tree %v: %s matches pattern %q and was edited, but the task depending on that pattern was skipped when run together with the tasks of %d other patterns", c.Paths, victim, pat, len(c.Patterns)-1)}
+		case !has && len(denotes[pat]) > 0 && ran[name]:
+			return &rp.Fail{Sig: "glob-includes-non-matching", Size: size, Msg: fmt.Sprintf("tree %v: only %s was edited, which pattern %q does not match, yet the task depending on that pattern ran again", c.Paths, victim, pat)}
 		}
 	}
 	return nil
